@@ -44,13 +44,6 @@ theorem offset_no_wrap (l : Loc) (k L : Int) (hne : l.parts ≠ []) (hp : ∀ p 
   simp [offsetLocation, offsetTrivial, hL0, hk, hlen, hlt, h1, h2, h3, shiftedParts_ok l k hp, rebuild_shift,
     bind, Except.bind, pure, Except.pure]
 
-/-- the loop body of `offset_location` that brings one shifted part back into the record -/
-def wrapPart (L : Int) (p : Part) : List Part :=
-  let s := p.lo % L
-  let e := (p.hi - 1) % L + 1
-  if 0 ≤ s && s < e && e ≤ L then [(⟨s, e, p.strand⟩ : Part)]
-  else [⟨s, L, p.strand⟩, ⟨0, e, p.strand⟩]
-
 /-- the rest of `offset_location` after the parts were brought back into the record -/
 def finishOffset (L : Int) (newParts : List Part) : E Loc := do
   if !(newParts.all fun p => 0 ≤ p.lo && p.lo < p.hi && p.hi ≤ L) then throw "assertion"
